@@ -11,18 +11,18 @@
 (* rejection can be located.                                               *)
 (***************************************************************************)
 EXTENDS Exec, ExecData
-VARIABLES tr, l
+VARIABLES tr, l, evs
 
-tvars == <<vars, tr, l>>
+tvars == <<vars, tr, l, evs>>
 
 KFNone == {}
 KFAll == {"DedupWaitCtx", "DepErrUnwrapped", "ForceSkipsPrecond", "VarsBlindHash", "DeferCallVarsRaw"}
 
-Evs == Traces[tr].evs
+Evs == evs
 PR(ev) == [p |-> ev.p, t |-> ev.t, i |-> ev.i, item |-> ev.item, v |-> ev.v, xc |-> ev.xc]
 
 TInit ==
-  /\ tr = 1 /\ l = 1 /\ prog = Traces[1].prog
+  /\ tr = 1 /\ l = 1 /\ prog = Programs[Traces[1].prog] /\ evs = Traces[1].evs
   /\ act = <<>> /\ sem = 0 /\ exec = <<>> /\ cancelled = {}
   /\ calls = [t \in DOMAIN Programs[Traces[1].prog].tasks |-> 0]
   /\ root = [st |-> "start", k |-> 0, gerr |-> NoErr]
@@ -31,7 +31,7 @@ TInit ==
 Silent ==
   /\ \/ \E p \in Paths : Internal(p)
      \/ (RootStart \/ RootNext) /\ ret' = ret
-  /\ UNCHANGED <<prog, tr, l>>
+  /\ UNCHANGED <<prog, tr, l, evs>>
 
 Obs ==
   /\ l <= Len(Evs)
@@ -46,12 +46,12 @@ Obs ==
                           /\ UNCHANGED <<svars, mvars>>
          [] OTHER      -> UNCHANGED <<svars, mvars>>
   /\ l' = l + 1
-  /\ UNCHANGED <<prog, tr>>
+  /\ UNCHANGED <<prog, tr, evs>>
 
 NextTrace ==
   /\ l = Len(Evs) + 1 /\ tr < Len(Traces)
   /\ (Done \/ Evs[Len(Evs)].e = "DL")
-  /\ tr' = tr + 1 /\ l' = 1 /\ prog' = Traces[tr + 1].prog
+  /\ tr' = tr + 1 /\ l' = 1 /\ prog' = Programs[Traces[tr + 1].prog] /\ evs' = Traces[tr + 1].evs
   /\ act' = <<>> /\ sem' = 0 /\ exec' = <<>> /\ cancelled' = {}
   /\ calls' = [t \in DOMAIN Programs[Traces[tr + 1].prog].tasks |-> 0]
   /\ root' = [st |-> "start", k |-> 0, gerr |-> NoErr]
